@@ -142,6 +142,11 @@ class Machine:
     k = (version, pred)
     if k not in self.scripts:
       text = program(self.shape, version, self.home, self.alias).text()
+      # the same process first compiles the un-grounded reading of the program (same predicate names): what that leaves behind must not
+      # decide how the grounded program is planned
+      twin = '\n'.join(l for l in text.split('\n') if not l.startswith('@Ground(') and not l.startswith('@Dataset('))
+      if not self.shape.get('alias_of'):
+        for p2 in self.shape['preds']: impl.compile_pred(twin, p2)
       out = impl.compile_pred(text, pred)
       self.scripts[k] = (out, text)
     return self.scripts[k]
